@@ -90,6 +90,11 @@ func FlushFromOverrideDefaultNI(c *fluent.GRIBIClient, wantACK fluent.Programmin
 // default NI using the Get RPC.
 func FlushFromNonMasterDefaultNI(c *fluent.GRIBIClient, wantACK fluent.ProgrammingResult, t testing.TB, _ ...TestOpt) {
 	defer flushServer(c, t)
+	// The non-master election ID that is used below is two lower than the value of the
+	// election ID after the entries are added - ensure that it cannot be zero (which is
+	// rejected as invalid rather than as not being the primary) when this test is the
+	// first to run with the initial election ID.
+	electionID.Inc()
 	addFlushEntriesToNI(c, defaultNetworkInstanceName, wantACK, t)
 
 	// addFlushEntriesToNI increments the election ID so to check with the current value,
